@@ -48,7 +48,7 @@ theorem Item.spec_rel {D : Option DocC → Option DocC → Prop} (hD : DocObs D)
     (a b : Item) → a.Rel Call.Sim D b → a.spec cfg ctx = b.spec cfg ctx
   | .cmd d c, .cmd d' c', h => by
     simp only [Item.Rel] at h
-    simp only [Item.spec, h.2.lname, h.2.singles, h.2.args, (hD _ _ h.1).1, (hD _ _ h.1).2]
+    simp only [Item.spec, h.2.lname, h.2.singles, h.2.allTexts, h.2.args, (hD _ _ h.1).1, (hD _ _ h.1).2]
   | .block d o bd c, .block d' o' bd' c', h => by
     simp only [Item.Rel] at h
     simp only [Item.spec, h.2.1.lname, h.2.1.singles, h.2.1.args, (hD _ _ h.1).1, (hD _ _ h.1).2,
@@ -103,7 +103,7 @@ theorem Item.wf_rel {D : Option DocC → Option DocC → Prop} (inClass : Bool) 
     (a b : Item) → a.Rel Call.Sim D b → a.wf inClass = b.wf inClass
   | .cmd d c, .cmd d' c', h => by
     simp only [Item.Rel] at h
-    simp only [Item.wf, h.2.lname, h.2.singles]
+    simp only [Item.wf, h.2.lname, h.2.singles, h.2.allTexts]
   | .block d o bd c, .block d' o' bd' c', h => by
     simp only [Item.Rel] at h
     simp only [Item.wf, h.2.1.lname, h.2.1.singles, h.2.2.2.lname, itemsWf_rel _ bd bd' h.2.2.1]
